@@ -1,6 +1,7 @@
 #!/bin/sh
-# maintainer helper: run try_seed.sh over every finished round-2 output not yet tried
-for d in /tmp/wt2/C*_out/m1 /tmp/wt2/C*_out/m2; do
+# maintainer helper: run try_seed.sh over every finished seeded-change output not yet tried (PV_SEED_ROOT, default /tmp/wt7)
+ROOT=${PV_SEED_ROOT:-/tmp/wt7}
+for d in $ROOT/C*_out/m1 $ROOT/C*_out/m2 $ROOT/C*_out/m3; do
   [ -f "$d/patch.diff" ] && [ -f "$d/demo.py" ] && [ -f "$d/notes.md" ] || continue
   [ -f "$d/.tried" ] && continue
   p=$(basename $(dirname $d)); p=${p%%_out}
